@@ -561,23 +561,34 @@ def N6_finality(ctx):
     n_final = 0
     bad_carry, bad_pub, bad_write = [], [], []
     carry_seen = 0
-    for p in gps:
+    gps3 = [p for p in g.paths(max_visits=3) if p.end in ('return', 'cut')]
+    for p in gps3:
         cands = [e for e in p.events if is_call(e, 'Scheduler::<DB>::lock_finality_candidate')]
-        for i, e in enumerate(cands):
-            if i == 0:
-                continue
-            prev = cands[i - 1]
-            # was prev's result Some on this path?
-            some = [a for a in p.events if a.kind == 'atom' and a.d['term'][0] == 'discr' and a.d['term'][1] == prev.d['result'] and a.d['outcome'] == 'Some']
-            if not some:
-                continue
-            a2 = e.d['args'][2]
-            if mentions(a2, prev.d['result']):
-                carry_seen += 1
+        last_some = None
+        last_idx = None
+        for e in cands:
+            if last_some is not None:
+                a2 = e.d['args'][2]
+                if mentions(a2, last_some.d['result']) or any(mentions(a2, s.d['result']) for s in somes_before):
+                    carry_seen += 1
+                    # must carry the NEWEST accepted candidate's bound (it already includes the older ones)
+                    if not mentions(a2, last_some.d['result']):
+                        bad_carry.append((e, a2))
+                else:
+                    bad_carry.append((e, a2))
+                exp_idx = last_some.d['args'][1]
+                if not is_add1(e.d['args'][1], exp_idx) and strip(e.d['args'][1]) != strip(last_idx if last_idx is not None else exp_idx):
+                    bad_carry.append((e, e.d['args'][1]))
+            some = [a for a in p.events if a.kind == 'atom' and a.d['term'][0] == 'discr' and a.d['term'][1] == e.d['result'] and a.d['outcome'] == 'Some']
+            if some:
+                somes_before = [last_some] if last_some is not None else []
+                last_some = e
+                last_idx = None
             else:
-                bad_carry.append((e, a2))
-            if not is_add1(e.d['args'][1], prev.d['args'][1]) and strip(e.d['args'][1]) != strip(prev.d['args'][1]):
-                bad_carry.append((e, e.d['args'][1]))
+                last_idx = e.d['args'][1]
+                if last_some is None:
+                    somes_before = []
+    for p in gps:
         for e in assigns(p, 'TxState.status'):
             if variant_of(e.d['value']) == 'Finality':
                 n_final += 1
